@@ -1,7 +1,7 @@
 (* C03 — subset grouping partitions observed proteins into maximal peptide-set groups.
    Statements only.  [m] is the ordered peptide -> proteins map (a dict: keys distinct); [prot_order m]
    are the proteins with at least one observed peptide; [peptides_of m p] is p's observed peptide set. *)
-From PGF Require Import Base.Prelude Model.ProteinGroups Model.Grouping Proofs.GroupingProofs.
+From PGF Require Import Base.Prelude Model.ProteinGroups Model.Grouping Model.GroupingCheck Proofs.GroupingProofs Proofs.GroupingCheckProofs.
 
 Section C03.
 Variable m : pmap.
@@ -71,6 +71,24 @@ Theorem C03_no_grouping_singletons : forall m,
   no_grouping m = map (fun p => [p]) (prot_order m) /\ NoDup (prot_order m).
 Proof. exact no_grouping_singletons. Qed.
 Print Assumptions C03_no_grouping_singletons.
+
+(* pseudo-gene grouping: the claim "the groups are exactly the connected components of the shares-a-peptide relation" is decided on
+   the IMPLEMENTATION's own groups by a boolean checker that the kernel evaluates in every pseudo-gene correspondence case
+   (Harness/H03.v); the checker is sound: whenever it answers true the groups are a duplicate-free partition of the observed proteins
+   in which two proteins share a group exactly when a chain of proteins with a common peptide links them *)
+Theorem C03_pseudo_gene_component_checker_sound : forall m groups, components_ok m groups = true ->
+  NoDup (concat groups) /\
+  (forall p, In p (concat groups) <-> In p (prot_order m)) /\
+  (forall x y, In x (concat groups) -> In y (concat groups) -> (same_group groups x y <-> linked m x y)).
+Proof. exact components_ok_sound. Qed.
+Print Assumptions C03_pseudo_gene_component_checker_sound.
+
+(* ... and the model of pseudo-gene grouping passes it on the isoform example of the code's docstring *)
+Example C03_pseudo_gene_witness :
+  let m := [(s2l "pep1", [s2l "isoA1"; s2l "isoA2"]); (s2l "pep2", [s2l "isoA1"]); (s2l "pep3", [s2l "isoA2"]); (s2l "pep4", [s2l "B"])] in
+  pseudo_gene_grouping m = [[s2l "isoA1"; s2l "isoA2"]; [s2l "B"]] /\ components_ok m (pseudo_gene_grouping m) = true /\
+  components_ok m [[s2l "isoA1"]; [s2l "isoA2"]; [s2l "B"]] = false.
+Proof. vm_compute. repeat split; reflexivity. Qed.
 
 (* non-vacuity: A (e1,e2) contains B (e1); C (e3) stands alone; D has the same set as A *)
 Example C03_witness :
